@@ -215,12 +215,13 @@ impl InputBuffer {
     fn fill_orig_b2c(&mut self) {
         self.m2o_2.clear();
         self.m2o_2.resize(self.original.len() + 1, usize::MAX);
-        let mut max = 0;
+        // number of codepoints of the original text (0 for the empty text)
+        let mut count = 0;
         for (ch_idx, (b_idx, _)) in self.original.char_indices().enumerate() {
             self.m2o_2[b_idx] = ch_idx;
-            max = ch_idx
+            count = ch_idx + 1;
         }
-        self.m2o_2[self.original.len()] = max + 1;
+        self.m2o_2[self.original.len()] = count;
     }
 
     fn commit(&mut self) -> SudachiResult<()> {
